@@ -39,6 +39,17 @@ def is_rational_fragment(t):
     return is_rational_fragment(t['l']) and is_rational_fragment(t['r'])
 
 
+def has_var(t):
+    k = t['k']
+    if k == 'var':
+        return True
+    if k in ('const', 'par'):
+        return False
+    if k == 'un':
+        return has_var(t['a'])
+    return has_var(t['l']) or has_var(t['r'])
+
+
 MARGIN = Fr(1, 1000)
 BIG = 10 ** 6
 
@@ -132,6 +143,9 @@ class MPEval:
                 raise Irregular('small denominator')
             return self.note(l / r)
         if op == '**':
+            if self.deriv and has_var(t['r']) and l < 1e-3:
+                # variable exponent: x**y = exp(y ln x) is differentiable only for x > 0
+                raise Irregular('variable exponent with non-positive base')
             if r == int(r):
                 e = int(r)
                 if e < 0 and (abs(l) < (1e-3 if self.strict else 0) or l == 0):
